@@ -492,9 +492,13 @@ func (e *Engine) execSimple(act *Activation, p *Path, in ssa.Instruction) bool {
 					cells = append(cells, StructV{[]Value{en.f[0], en.f[1], e.And(al.g, en.f[2].(*Term))}})
 				}
 			}
-			p.regs[x] = IterV{obj: e.newObj(p.st, cells), m: xv}
+			id := e.newObj(p.st, cells)
+			e.obj(p.st, id).kind = kindIter
+			p.regs[x] = IterV{obj: id, m: xv}
 		case StrV:
-			p.regs[x] = IterV{obj: e.newObj(p.st, []Value{e.Const(64, 0)}), s: xv, str: true}
+			id := e.newObj(p.st, []Value{e.Const(64, 0)})
+			e.obj(p.st, id).kind = kindIter
+			p.regs[x] = IterV{obj: id, s: xv, str: true}
 		default:
 			unsup("range over %T", xv)
 		}
